@@ -248,6 +248,21 @@ def cases(tier):
         for seed in ('0', '1', '2', '3', '5', '8', '13', '21', '34', 'random'):
             out.append(dict(kind='hashseed', model=n, seed=seed))
     out.append(dict(kind='clock', model='excelP'))
+    # Python API: a composed potential that was already evaluated is used as an operand of a further composition (and evaluated again)
+    from . import C07
+    from ..refmodel.expr import form as _form
+    shl = [_form('buck', 1000.0, 0.3, 32.0), _form('morse', 1.8, 2.0, 0.6), {'py': 'py_plain'}]
+    for c1, c2 in itertools.product(('sum', 'product', 'pow'), repeat=2):
+        for a, b, c in itertools.product(shl, repeat=3):
+            for side in (0, 1):
+                out.append(dict(kind='api-share', route='shared', c1=c1, c2=c2, a=a, b=b, c=c, side=side))
+    # the potable command line writing, one run after the other, into the SAME OUTPUT_FILE: every ordered sequence of (model, size)
+    alpha = [[n, big] for n in NAMES for big in (0, 1)]
+    for depth in ((2,) if tier == 'quick' else (2, 3)):
+        for seq in itertools.product(alpha, repeat=depth):
+            if seq[-1][0] == 'excelP':
+                continue        # workbook bytes embed the clock (F03): the workbook only occurs as the older content
+            out.append(dict(kind='outfile', seq=[list(x) for x in seq]))
     _CLI['ref'] = cli_run('0')
     for seed in ('1', '2', '3', '5', '8', '13', '21', '34', 'random', '4'):
         out.append(dict(kind='hashseed-cli', seed=seed))
@@ -357,7 +372,47 @@ def run_hashseed_cli(case):
     return dict(outcome='ok:hashseed-cli' if not viol else 'violation', nontrivial=True, evals=1, violations=viol, states=['hashseed-cli'], transitions=1, traces=1)
 
 
+_OUT_REF = {}
+
+
+def sized(name, big):
+    text = MODELS[name][0]
+    if big:
+        text = text.replace('nr : 5', 'nr : 41').replace('nr : 4\n', 'nr : 40\n')
+    return text
+
+
+def run_outfile(case):
+    viol = []
+    content = None
+    for name, big in case['seq']:
+        binary = name == 'excelP'
+        res = R.potable(sized(name, big), binary=binary, prefill=content)
+        if res.exc is not None:
+            raise res.exc
+        content = res.out_bytes
+        if binary:
+            continue
+        if (name, big) not in _OUT_REF:
+            r0 = R.potable(sized(name, big))
+            _OUT_REF[(name, big)] = r0.out_bytes
+        want = _OUT_REF[(name, big)]
+        if res.status != 0 or content != want:
+            viol.append(dict(sig='output-file-depends-on-its-previous-content', msg='potable runs %r into the same OUTPUT_FILE: after the last run the file has %s bytes, a run into a new file gives %d bytes (first difference at %s)'
+                             % (case['seq'], len(content or ''), len(want), first_diff(content or '', want)), detail={}))
+            break
+    return dict(outcome='ok:outfile:%d' % len(case['seq']) if not viol else 'violation', nontrivial=True, evals=len(case['seq']), violations=viol,
+                states=['outfile:%s' % ','.join('%s%d' % (n, b) for n, b in case['seq'][:-1])], transitions=len(case['seq']), traces=1)
+
+
 def run_case(case):
+    if case['kind'] == 'outfile':
+        return run_outfile(case)
+    if case['kind'] == 'api-share':
+        from . import C07
+        res = C07.run_shared(case)
+        res.update(states=['api-share'], transitions=3, traces=1)
+        return res
     if case['kind'] == 'hashseed-cli':
         return run_hashseed_cli(case)
     return dict(history=run_history, setorder=run_setorder, hashseed=run_hashseed, clock=run_clock)[case['kind']](case)
